@@ -13,6 +13,7 @@ SIZE = "embedded_graphics_core::geometry::size::Size"
 # are legitimate questions across the axes; sums, differences, min/max and constructor places are not
 JOINING = ("Add", "Sub", "AddWithOverflow", "SubWithOverflow")
 JOIN_CALLS = ("min", "max", "saturating_sub", "saturating_add", "wrapping_sub", "wrapping_add", "checked_sub", "checked_add", "abs_diff", "clamp")
+ITER_CALLS = ("next", "next_back", "into_iter", "iter", "rev", "by_ref", "clone", "skip", "take", "step_by", "peekable", "peek", "copied", "cloned")
 KEEP_CALLS = ("abs", "unsigned_abs", "saturating_as", "into", "from", "try_into", "try_from", "clone", "unwrap_or", "unwrap_or_default", "unwrap")
 
 
@@ -27,6 +28,7 @@ class Axis:
         self.prog, self.fn = prog, fn
         self.conflicts = []
         self._memo = {}
+        self._keep = []
 
     # ---- types of trees (best effort) -----------------------------------------------------------------------
     def type_of(self, t):
@@ -76,6 +78,10 @@ class Axis:
             return None
         return None
 
+    def _scalar_arg(self, a):
+        ty = self.type_of(a)
+        return ty is None or isinstance(ty, str)
+
     # ---- labels --------------------------------------------------------------------------------------------
     def label(self, t):
         key = id(t)
@@ -83,6 +89,7 @@ class Axis:
             return self._memo[key]
         r = self._label(t)
         self._memo[key] = r
+        self._keep.append(t)   # the memo is keyed by identity: keep the tree alive so that its id is not reused
         return r
 
     def _join(self, a, b, where, t):
@@ -94,11 +101,18 @@ class Axis:
             return a
         if {a, b} == {"X", "Y"}:
             self.conflicts.append((where, show(t, maxd=5)))
+        if {a, b} in ({"XX", "Y"}, {"YY", "X"}):
+            # y * height + x: a row count times a row count is not a number of cells before row y (that is y * width)
+            self.conflicts.append((where, "a product of two %s-quantities is combined with a plain %s-quantity: %s" % ((("x", "y") if "XX" in (a, b) else ("y", "x")) + (show(t, maxd=5),))))
         return "M"
 
     def _label(self, t):
         k = t[0]
         if k == "const":
+            if t[1] == "WIDTH":
+                return "X"       # const generic parameters of Framebuffer-like types
+            if t[1] == "HEIGHT":
+                return "Y"
             return "N"
         if k in ("cast", "ref", "deref"):
             return self.label(t[1])
@@ -109,6 +123,8 @@ class Axis:
                 return "X" if t[2] == 0 else ("Y" if t[2] == 1 else "M")
             if t[1][0] == "bin" and t[2] == 0:   # checked arithmetic tuple
                 return self.label(t[1])
+            if t[1][0] == "variant" and t[2] == 0 and t[1][2] in ("Some", "Ok"):
+                return self.label(t[1][1])       # the item of an Option / Result
             if isinstance(bt, dict) and "adt" in bt:
                 # a scalar field of another struct: its declared name says which axis it belongs to, if any
                 a = self.prog.adts.get(bt["adt"])
@@ -137,6 +153,8 @@ class Axis:
                     return a
                 if a == "N" and t[1] in ("Mul", "MulWithOverflow"):
                     return b
+                if t[1] in ("Mul", "MulWithOverflow") and a in ("X", "Y") and b in ("X", "Y"):
+                    return a + b if a == b else "A"   # XX / YY: a square; A: cells (rows x columns)
                 return "M"
             return "M"
         if k == "un":
@@ -160,6 +178,20 @@ class Axis:
                 return r
             if name in KEEP_CALLS and args:
                 return args[0]
+            if name in ITER_CALLS and args and ("core::iter" in t[1] or "IntoIterator" in t[1] or "core::ops::range" in t[1] or "core::slice" in t[1]):
+                return args[0]                   # the items of an iterator carry the iterator's axis
+            cands = [g for g in self.prog.by_path.get(t[1], []) if g.kind == "fn" and g.body]
+            if len(cands) == 1 and args and not cands[0].impl:
+                # a free crate-local helper fed with quantities of one axis only (and neutral ones) computes for that axis
+                out = cands[0].output
+                scalar_or_iter = isinstance(out, str) or (isinstance(out, dict) and not ("adt" in out and out["adt"] in (POINT, SIZE)) and "tuple" not in out)
+                def bare(a):
+                    while a[0] in ("ref", "deref", "cast"):
+                        a = a[1]
+                    return a[0] in ("param", "upvar") and isinstance(self.type_of(a), str)   # a scalar passed through: no axis of its own
+                labs = {l for l, a in zip(args, t[3]) if l != "N" and not (l == "M" and bare(a))}
+                if scalar_or_iter and len(labs) == 1 and labs <= {"X", "Y"} and all(self._scalar_arg(a) for a in t[3]):
+                    return labs.pop()
             return "M"
         if k == "agg" and isinstance(t[1], str) and t[1].rsplit("::", 1)[0] in (POINT, SIZE) and len(t[2]) == 2:
             a, b = self.label(t[2][0]), self.label(t[2][1])
